@@ -641,8 +641,10 @@ class Components(Stream):
         return None
 
     def histogram(self, cases, obs):
-        h = {'ok': 0, 'by_model_type': 0, 'alias': 0, 'scalar_bdf': 0, 'mixed_port_shapes': 0}
+        h = {'ok': 0, 'by_model_type': 0, 'alias': 0, 'scalar_bdf': 0, 'mixed_port_shapes': 0, 'shared_label_object': 0}
         for c, o in zip(cases, obs):
+            o = o['res']
+            h['shared_label_object'] += len(set(lobj_of(c))) < len(lobj_of(c))
             if isinstance(o, dict):
                 h[o['err']] = h.get(o['err'], 0) + 1
             else:
@@ -981,6 +983,18 @@ class C18(Check):
         except Exception as e:
             out.append({'name': 'list_instances() equals the regenerated inst_sizes table', 'ok': False, 'detail': repr(e)})
         return out
+
+
+def _shared_label_witness():
+    st = Components()
+    case = {'name': 'nic1', 'sel': ['tm', 'SmartNIC', 'ConnectX-6'], 'nsid': None, 'ids': None, 'labs': [None, None],
+            'lobj': [0, 0], 'lx': ['m', 'm'], 'parent': None}
+    o = st.observe(case)
+    why = st.oracle(case, o)
+    return bool(why and 'label object' in why), {'case': case, 'observation': o, 'why': why}
+
+
+C18.refuted_witnesses = lambda self: [('C18_shared_label_refuted', _shared_label_witness)]
 
 
 if __name__ == '__main__':
